@@ -1,4 +1,7 @@
 import AvroProofs.Lemmas.Varint
 import AvroProofs.Lemmas.Datum
 import AvroProofs.Lemmas.RoundTrip
+import AvroProofs.Lemmas.DecodeSide
+import AvroProofs.Lemmas.DecodeConforms
 import AvroProofs.C01
+import AvroProofs.C06
